@@ -301,7 +301,7 @@ func c19(r *hx.Run) {
 							rms = append(rms, rmCase{fmt.Sprintf("c%d|d%v|o%d|v%s|t%d|r%d", ci, deact, oi, vid, tm[0], ri), protocol.ResolutionModel{
 								UpdateCommitment: cm[0], RecoveryCommitment: cm[1], Deactivated: deact, AnchorOrigin: org, VersionID: vid, CreatedTime: tm[0], UpdatedTime: tm[1],
 								CanonicalReference: canon, EquivalentReferences: refs,
-								PublishedOperations: []*operation.AnchoredOperation{{Type: operation.TypeCreate, TransactionTime: 2, TransactionNumber: 1, CanonicalReference: "p2"}, {Type: operation.TypeUpdate, TransactionTime: 1, TransactionNumber: 5, CanonicalReference: "p1"}},
+								PublishedOperations:   []*operation.AnchoredOperation{{Type: operation.TypeCreate, TransactionTime: 2, TransactionNumber: 1, CanonicalReference: "p2"}, {Type: operation.TypeUpdate, TransactionTime: 1, TransactionNumber: 5, CanonicalReference: "p1"}},
 								UnpublishedOperations: []*operation.AnchoredOperation{{Type: operation.TypeUpdate, TransactionTime: 9}}}})
 						}
 					}
